@@ -289,10 +289,14 @@ def ob_wellformed(relpath, fname):
             return out
         out.append(struct(base + '/no-raise', len(paths) >= 1, '%d path(s), none raises' % len(paths), fn))
         # too few parameters must be rejected when the tuple is unpacked
-        if unpack is not None and len(pn) > 0:
+        if len(pn) > 0:
+            # (asked of every model, however it takes its parameters apart: by unpacking the tuple, by slicing, by indexing)
             ex2, paths2 = MA.run_model(relpath, fname, ps[:-1], ns, pts, hyps=hy)
-            ok = all(p.outcome == 'raise' for p in paths2)
-            out.append(struct(base + '/arity-short', ok, 'one parameter fewer is rejected on every path', fn))
+            ok = bool(paths2) and all(p.outcome == 'raise' for p in paths2)
+            out.append(struct(base + '/arity-short', ok, 'one parameter fewer is rejected on every path', fn, finding_key=base + '/arity'))
+            ex3, paths3 = MA.run_model(relpath, fname, ps + [sym('extra_parameter')], ns, pts, hyps=hy)
+            ok3 = bool(paths3) and all(p.outcome == 'raise' for p in paths3)
+            out.append(struct(base + '/arity-long', ok3, 'one parameter more is rejected on every path', fn, finding_key=base + '/arity'))
         # every named parameter reaches the numerical layer on some path (a parameter that is unpacked but never used is a wiring slip),
         # except where the docstring says so
         used = set()
